@@ -25,23 +25,17 @@ pub fn run(args: &Args) {
         let base = Utc.with_ymd_and_hms(2024, 1, 1, 0, 0, 0).single().expect("base");
         for (p, k) in shapes {
             sim.clear();
-            // scripted bucket: directory v (1..=999) is index v-1; rank r uploaded at base + r minutes
-            sim.set_handler(Some(Box::new(move |req: &Req, _s: &mut SimState| {
-                if !req.is_list() { return Some(Resp::not_found()); }
-                let prefix = req.q("prefix").unwrap_or("").to_string();
-                let mut it = prefix.split('/');
-                let (site, vol) = (it.next().unwrap_or(""), it.next().unwrap_or("").parse::<u64>().unwrap_or(0));
-                let body = if site == "KDMX" && (1..=N).contains(&vol) {
-                    let i = vol - 1;
-                    let d = (p + N - i) % N;
-                    if d < k {
-                        let t = base + Duration::minutes((k - d) as i64);
-                        let key = format!("KDMX/{}/{}-001-S", vol, t.format("%Y%m%d-%H%M%S"));
-                        list_envelope("unidata-nexrad-level2-chunks", &prefix, 1, true, &contents_xml(&key, &lm_rfc3339(&t), "100"), 1)
-                    } else { list_envelope("unidata-nexrad-level2-chunks", &prefix, 1, false, "", 0) }
-                } else { list_envelope("unidata-nexrad-level2-chunks", &prefix, 1, false, "", 0) };
-                Some(Resp::xml(200, body))
-            })));
+            // real bucket content: one first chunk per populated directory; directory v (1..=999) is index v-1,
+            // rank r uploaded at base + r minutes.  Listing uses the simulator's genuine prefix semantics.
+            sim.set_handler(None);
+            for i in 0..N {
+                let d = (p + N - i) % N;
+                if d < k {
+                    let t = base + Duration::minutes((k - d) as i64);
+                    sim.put("unidata-nexrad-level2-chunks", &format!("KDMX/{}/{}-001-S", i + 1, t.format("%Y%m%d-%H%M%S")),
+                            Obj { data: vec![0; 8], last_modified: t, lm_text: None, size_text: None });
+                }
+            }
             res.case(p * 1000 + k, k >= 1 && k < N);
             let out: Result<_, ()> = Ok(get_latest_volume("KDMX").await);
             let lists = sim.log().iter().filter(|r| r.is_list()).count();
